@@ -218,7 +218,20 @@ def run(run):
             x = x.reshape(2, 4, 32) * torch.tensor([0.3, 1.0, 2.0, 5.0]).reshape(1, 4, 1)
         cfg = {"constraint": "CompositeConstraint", "chain": [nm for nm, _ in chain]}
         try:
-            comp = K.CompositeConstraint(parts) if rep % 2 == 0 else K.utils.combine_constraints(parts)
+            # construction forms in turn: the class, the helper, and a composite that is extended after construction (also after a first use)
+            form = ("class", "combine_constraints", "add_constraint", "add_constraint after a call")[rep % 4]
+            cfg["form"] = form
+            if form == "class":
+                comp = K.CompositeConstraint(parts)
+            elif form == "combine_constraints":
+                comp = K.utils.combine_constraints(parts)
+            else:
+                comp = K.CompositeConstraint(parts[:1])
+                if form.endswith("call"):
+                    comp(x)
+                    del order[:]
+                for p_ in parts[1:]:
+                    comp.add_constraint(p_)
             y = comp(x)
             seq_order = list(order)
             ref = x
